@@ -14,6 +14,7 @@ from engine import pat
 from engine.util import own_nodes, calls_with_nodes, where
 
 RULES = {
+    "R-05.16": "the text reader of a type does not depend on history: dns.rdata.get_rdata_class memoises a class under the (class, type) key it looked up, and under (ANY, type) only a class imported from the class-independent directory (the rule function of C02 R-02.3, run here directly) - a GenericRdata cached for every class makes the ordinary text of an IN-only type unparsable once the type was seen in class CH",
     "R-05.15": "a scaled float is rounded, not truncated: in dns/rdtypes/ANY/LOC.py `int(...)` is never applied directly to a product or quotient that has an operand not known to be an integer (a parameter, an attribute, a float) - degrees stored as a float times 3600000 land a hair below the integer for about 4% of the millisecond values, and truncation prints them 1 ms short, so the text no longer parses back to the record",
     "R-05.14": "the generic (\\#) text of a known type can be produced for every relativity choice: Rdataset.to_styled_text hands rd.to_generic() the style's origin unconditionally (the rule function of C09 R-09.1, run here directly because C09 adopts C05 rules)",
     "R-05.13": "optional trailing fields are left out only when ALL of them have their default: the guard that prints LOC's size/precision tail is a disjunction of `!= default` tests (one per field the tail holds), because the reader refills every missing field with its default",
@@ -363,6 +364,41 @@ def check_validators(model, rep, rule):
                   "which later fails in struct.pack / Rdataset.update_ttl with an error outside the syntax-error family", stmt="ttl-bound")
 
 
+
+def check_text_name_triple(model, rep, rule):
+    """Every text reader hands origin, relativize and relativize_to to each name-reading call (shared with C01: a name read from text is the inverse of its text form only for the relativity the caller chose)."""
+    # ---------------------------------------------------------------- R-05.6
+    TRIPLE = ("origin", "relativize", "relativize_to")
+    takes = {f.node.name for f in model.all_functions() if "relativize_to" in f.params()}
+    n_nm = 0
+    for f in sorted(model.all_functions(), key=lambda g: g.qualname):
+        if not (f.module.name.startswith("dns.rdtypes") or f.module.name == "dns.rdata") or not all(p in f.params() for p in TRIPLE):
+            continue
+        for c in ast.walk(f.node):
+            if not (isinstance(c, ast.Call) and isinstance(c.func, ast.Attribute) and c.func.attr in takes and c.func.attr in ("get_name", "as_name", "from_text")):
+                continue
+            if c.func.attr == "from_text":
+                tgt = model.resolve_expr(f, c.func.value)
+                if tgt in model.classes:
+                    m = model.lookup_method(model.classes[tgt], "from_text")
+                    if m is None or "relativize_to" not in m.params():
+                        continue
+                elif not (isinstance(c.func.value, ast.Name) and (c.func.value.id == "cls" or any(isinstance(a_, ast.Assign) and src(a_.targets[0]) == c.func.value.id and "get_rdata_class" in src(a_.value) for a_ in ast.walk(f.node)))):
+                    continue
+            n_nm += 1
+            passed = {src(a) for a in c.args} | {src(k.value) for k in c.keywords}
+            key = (f.qualname, src(c.func))
+            role = ("<class>." + c.func.attr) if (c.func.attr == "from_text" and isinstance(c.func.value, ast.Name) and c.func.value.id not in ("cls",) and c.func.value.id[:1].islower()) else src(c.func)
+            missing = [p for p in TRIPLE if p not in passed]
+            if not missing:
+                rep.ok(rule, f.qualname, where(f, c), f"`{src(c.func)}` receives origin, relativize, relativize_to", stmt="names " + role, nontrivial=False)
+            elif key in ABSOLUTE_NAME_OK:
+                rep.excepted(rule, f.qualname, where(f, c), ABSOLUTE_NAME_OK[key], stmt="names " + role)
+            else:
+                rep.bad(rule, f.qualname, where(f, c), f"`{src(c)[:70]}` does not pass {missing}: the name is relativized differently from the rest of the zone file "
+                        "(after a $ORIGIN that differs from the zone origin it silently denotes another name)", stmt="names " + role)
+    rep.floor(rule, n_nm, 24)
+
 def run(model, rep, tier):
     iv = Intervals(model)
     # ---------------------------------------------------------------- R-05.1 widths
@@ -609,37 +645,7 @@ def run(model, rep, tier):
               "generic form = \\# length hex, with the length checked", "generic form parsing changed", stmt="generic-shape")
     gs = model.func("dns.rdata.GenericRdata.to_styled_text")
     rep.check("\\\\# " in src(gs.node) and "len(self.data)" in src(gs.node), "R-05.4", gs.qualname, where(gs, gs.node), "generic text = \\# length hex", "generic text production changed", stmt="generic-text")
-    # ---------------------------------------------------------------- R-05.6
-    TRIPLE = ("origin", "relativize", "relativize_to")
-    takes = {f.node.name for f in model.all_functions() if "relativize_to" in f.params()}
-    n_nm = 0
-    for f in sorted(model.all_functions(), key=lambda g: g.qualname):
-        if not (f.module.name.startswith("dns.rdtypes") or f.module.name == "dns.rdata") or not all(p in f.params() for p in TRIPLE):
-            continue
-        for c in ast.walk(f.node):
-            if not (isinstance(c, ast.Call) and isinstance(c.func, ast.Attribute) and c.func.attr in takes and c.func.attr in ("get_name", "as_name", "from_text")):
-                continue
-            if c.func.attr == "from_text":
-                tgt = model.resolve_expr(f, c.func.value)
-                if tgt in model.classes:
-                    m = model.lookup_method(model.classes[tgt], "from_text")
-                    if m is None or "relativize_to" not in m.params():
-                        continue
-                elif not (isinstance(c.func.value, ast.Name) and (c.func.value.id == "cls" or any(isinstance(a_, ast.Assign) and src(a_.targets[0]) == c.func.value.id and "get_rdata_class" in src(a_.value) for a_ in ast.walk(f.node)))):
-                    continue
-            n_nm += 1
-            passed = {src(a) for a in c.args} | {src(k.value) for k in c.keywords}
-            key = (f.qualname, src(c.func))
-            role = ("<class>." + c.func.attr) if (c.func.attr == "from_text" and isinstance(c.func.value, ast.Name) and c.func.value.id not in ("cls",) and c.func.value.id[:1].islower()) else src(c.func)
-            missing = [p for p in TRIPLE if p not in passed]
-            if not missing:
-                rep.ok("R-05.6", f.qualname, where(f, c), f"`{src(c.func)}` receives origin, relativize, relativize_to", stmt="names " + role, nontrivial=False)
-            elif key in ABSOLUTE_NAME_OK:
-                rep.excepted("R-05.6", f.qualname, where(f, c), ABSOLUTE_NAME_OK[key], stmt="names " + role)
-            else:
-                rep.bad("R-05.6", f.qualname, where(f, c), f"`{src(c)[:70]}` does not pass {missing}: the name is relativized differently from the rest of the zone file "
-                        "(after a $ORIGIN that differs from the zone origin it silently denotes another name)", stmt="names " + role)
-    rep.floor("R-05.6", n_nm, 24)
+    check_text_name_triple(model, rep, "R-05.6")
 
     # ---------------------------------------------------------------- R-05.5
     check_validators(model, rep, "R-05.5")
@@ -914,6 +920,8 @@ def run(model, rep, tier):
                             "so the text shows one unit less than the wire holds and does not parse back to the same record", stmt="truncated-product")
     rep.floor("R-05.15", n15, 12)
     rep.ok("R-05.15", "dns.rdtypes.ANY.LOC", "dns/rdtypes/ANY/LOC.py", f"{n15} int() conversions: none truncates a float product", stmt="truncated-product")
+    from rules.c02 import check_rdata_class_dispatch
+    check_rdata_class_dispatch(model, rep, "R-05.16")
     rep.meta["explanation"] = (
         "Interval evaluation of every struct.pack argument in ~60 wire encoders against the ranges established by constructor validators (field table read from __init__), a local scan of every text "
         "producer for operations that can raise on validated data, folded escape-table comparison for quoted strings, and a per-field check that octet-wise printing is paired with octet-wise parsing. "
